@@ -68,6 +68,7 @@ func loadProgram(repo string, goarch string) (*Program, error) {
 			p.SSAPkg[pk.PkgPath] = sp
 		}
 	}
+	resolveTypeRoles(p)
 	for _, rel := range scopePkgs {
 		path := modPath
 		if rel != "" {
@@ -81,6 +82,7 @@ func loadProgram(repo string, goarch string) (*Program, error) {
 	}
 	sort.Slice(p.Funcs, func(i, j int) bool { return p.FuncName(p.Funcs[i]) < p.FuncName(p.Funcs[j]) })
 	resolveFuncRoles(p)
+	resolveIfaceRoles(p)
 	resolveRoles(p)
 	return p, nil
 }
@@ -155,7 +157,7 @@ func (p *Program) FuncName(fn *ssa.Function) string {
 		}
 		name := "?"
 		if n, ok := rt.(*types.Named); ok {
-			name = n.Obj().Name()
+			name = typeCanonName(n.Obj())
 			if n.Obj().Pkg() != nil {
 				pkg = n.Obj().Pkg().Name()
 			}
@@ -163,6 +165,28 @@ func (p *Program) FuncName(fn *ssa.Function) string {
 		return fmt.Sprintf("%s.(%s%s).%s", pkg, ptr, name, fn.Name())
 	}
 	return pkg + "." + fn.Name()
+}
+
+// CanonFuncName is FuncName with renamed unexported functions shown under the name the rules know them by.
+func (p *Program) CanonFuncName(fn *ssa.Function) string {
+	if fn == nil {
+		return "<nil>"
+	}
+	fn = origin(fn)
+	if fn.Parent() != nil {
+		idx := 0
+		for i, a := range fn.Parent().AnonFuncs {
+			if a == fn {
+				idx = i + 1
+			}
+		}
+		return fmt.Sprintf("%s$%d", p.CanonFuncName(fn.Parent()), idx)
+	}
+	name := p.FuncName(fn)
+	if c, ok := funcCanon[fn]; ok && c != fn.Name() {
+		name = strings.TrimSuffix(name, fn.Name()) + c
+	}
+	return name
 }
 
 // Func looks a function up by its FuncName; nil if absent.
@@ -198,6 +222,13 @@ func (p *Program) NamedType(rel, name string) *types.Named {
 		return nil
 	}
 	o := pk.Types.Scope().Lookup(name)
+	if o == nil {
+		for tn, canon := range typeCanon {
+			if canon == name && tn.Pkg() == pk.Types {
+				o = tn
+			}
+		}
+	}
 	if o == nil {
 		return nil
 	}
@@ -313,6 +344,23 @@ func origin(fn *ssa.Function) *ssa.Function {
 		return o
 	}
 	return fn
+}
+
+// TargetOf resolves a synthetic bound-method wrapper (x.m used as a value) to the method m; other functions to
+// their origin.
+func (p *Program) TargetOf(fn *ssa.Function) *ssa.Function {
+	if fn == nil {
+		return nil
+	}
+	f := origin(fn)
+	if f.Synthetic != "" && strings.HasSuffix(f.Name(), "$bound") && f.Object() != nil {
+		if tf, ok := f.Object().(*types.Func); ok {
+			if g := p.Prog.FuncValue(tf.Origin()); g != nil {
+				return origin(g)
+			}
+		}
+	}
+	return f
 }
 
 // calleeOf returns the static callee (origin) of a call, if any.
